@@ -34,31 +34,25 @@ Theorem C14_layout_step : forall m c la rest m',
 Proof. exact LQ_step. Qed.
 Print Assumptions C14_layout_step.
 
-(* every module returned by build_modules_for_cds obeys the module rules (layout_weak: the decidable
-   specification over the component list alone, Model.v) and its slots and trans-AT flag are the
-   documented functions of its components.
-   Partial: layout_weak lets a module hold MORE than two carrier proteins as long as each extra one is
-   directly followed by a registered DOUBLE_TRANSPORTER_CASES pair; the bound "one, or two in the
-   double-transporter case" of the property (layout_spec) is refuted below and holds exactly for the
-   modules with at most two carrier proteins (C14_layout_spec_guarded). *)
-Theorem C14_layout_inv_partial : forall domains ms,
+(* every module returned by build_modules_for_cds obeys the module rules (layout_spec: the decidable
+   specification over the component list alone, Model.v - explicit starter only in front, one loader,
+   no NRPS/PKS mix, one end, at most two carrier proteins and the second one directly followed by a
+   registered DOUBLE_TRANSPORTER_CASES pair, modifications after a carrier protein only as trans-AT KR
+   or pair member) and its slots and trans-AT flag are the documented functions of its components *)
+Theorem C14_layout_inv : forall domains ms,
   Forall (fun c => c_classified c = true) domains ->
   build_modules_for_cds domains = Ok ms -> Forall rules_ok ms.
 Proof. exact build_layout. Qed.
-Print Assumptions C14_layout_inv_partial.
+Print Assumptions C14_layout_inv.
 
-Theorem C14_layout_spec_guarded : forall m,
-  rules_ok m -> (cnt c_cp (m_comps m) <= 2)%nat -> layout_spec (m_comps m) = true.
-Proof. exact rules_strict. Qed.
-Print Assumptions C14_layout_spec_guarded.
-
-(* finding: KS ACP ACP LPG Beta ACP LPG Beta is ONE module with three carrier proteins *)
-Theorem C14_layout_cp_at_most_two_refuted :
-  exists domains ms m, build_modules_for_cds domains = Ok ms /\ In m ms /\
-    Forall (fun c => c_classified c = true) domains /\
-    cnt c_cp (m_comps m) = 3%nat /\ layout_spec (m_comps m) = false.
-Proof. exact cp_at_most_two_refuted. Qed.
-Print Assumptions C14_layout_cp_at_most_two_refuted.
+(* one carrier protein, or two in the documented double-transporter case - never more (was refuted by
+   KS ACP ACP LPG Beta ACP LPG Beta before the repair of finding F52: ensure_suitable now refuses a
+   carrier protein when the module already holds the extra one) *)
+Theorem C14_layout_cp_at_most_two : forall domains ms,
+  Forall (fun c => c_classified c = true) domains ->
+  build_modules_for_cds domains = Ok ms -> Forall (fun m => (cnt c_cp (m_comps m) <= 2)%nat) ms.
+Proof. exact build_cp_at_most_two. Qed.
+Print Assumptions C14_layout_cp_at_most_two.
 
 (* a module rebuilt from its saved form (replay of add_component over the stored components, look-ahead
    = the rest of the module) is accepted and is the identical module: all slots, lists and flags *)
@@ -139,6 +133,17 @@ Example C14_ex_combine :
     combine_modules true c p = Ok (Some m, p', c') /\ length (m_comps m) = 3%nat /\ c' = [].
 Proof. do 5 eexists. repeat split; vm_compute; reflexivity. Qed.
 
+(* regression (finding F52, repaired): the third carrier protein of KS ACP ACP LPG Beta ACP LPG Beta is
+   refused although the registered pair follows it again; the modules are [KS,CP,CP,+,+] [CP] [+,+] *)
+Example C14_ex_third_cp_refused :
+  exists m1 m2 m3,
+    build_modules_for_cds
+      [mkComp 41 0 0 10; mkComp 1 0 1 20; mkComp 1 0 2 30; mkComp 28 0 3 40; mkComp 11 0 4 50;
+       mkComp 1 0 5 60; mkComp 28 0 6 70; mkComp 11 0 7 80] = Ok [m1; m2; m3] /\
+    map cid (m_comps m1) = [0; 1; 2; 3; 4] /\ map cid (m_comps m2) = [5] /\ map cid (m_comps m3) = [6; 7] /\
+    cnt c_cp (m_comps m1) = 2%nat /\ layout_spec (m_comps m1) = true.
+Proof. exact third_cp_refused. Qed.
+
 (* the step invariant is met by a real intermediate state: [KS, ACP] about to take a second ACP *)
 Example C14_ex_step_hyps :
   exists m, replay (empty_module true) [mkComp 41 1 0 10; mkComp 1 0 1 20] = Ok m /\
@@ -148,5 +153,6 @@ Proof.
   eexists. split; [vm_compute; reflexivity|]. split.
   - split; [discriminate|left; reflexivity].
   - constructor; try reflexivity.
-    split; intros H; vm_compute in H; [exfalso; inversion H as [|? H1]; inversion H1|discriminate].
+    + split; intros H; vm_compute in H; [exfalso; inversion H as [|? H1]; inversion H1|discriminate].
+    + split; vm_compute; [reflexivity|repeat constructor].
 Qed.
